@@ -31,7 +31,7 @@ AMBIG = 1e-9  # a reported value this close to the threshold is not judged (the 
 class C05(Check):
     pid = "C05"
     level = "proof"
-    prop_modules = ["WntrModel.Props.C05"]
+    prop_modules = ["WntrModel.Props.C05", "WntrModel.Lemmas.TankShape"]
     extra_targets = ["WntrModel.Model.Controls"]
     manifest = dict(
         category="proof",
@@ -67,7 +67,16 @@ class C05(Check):
     ]
 
     def translate(self, ctx):
-        pass
+        """Gen/TankShape.lean (post-solve pass skeleton, _internal_status writer table, tank arithmetic) from the Python ast"""
+        import c06_translate
+
+        try:
+            text, writers = c06_translate.generate()
+        except c06_translate.Bad as e:
+            raise vlib.BrokenTie("c06_translate: %s" % e)
+        self.writers = writers
+        ctx.cov["translated"] = ["_run_postsolve_controls", "_internal_status writers (%d)" % len(writers), "update_tank_heads", "Tank.get_volume"]
+        vlib.write_if_changed(os.path.join(vlib.GEN, "TankShape.lean"), text)
 
     # ------------------------------------------------------------------ function level
     def _function_level(self, ctx, B, failures, broken):
@@ -331,8 +340,14 @@ class C05(Check):
         adj = []
         for i, ln in enumerate(tr.links):
             l = wn.get_link(ln)
-            cvpump.append(1 if (tr.kinds[i] == "pump" or (tr.kinds[i] == "pipe" and l.check_valve)) else 0)
-            adj.append([tids[n] for n in (l.start_node_name, l.end_node_name) if n in tankset])
+            # who may hold a commanded-open link closed is read off the translated table of `_internal_status` writers
+            # (Gen.internalWriters; theorem internal_writers_of_pipe): builder guard "always" / "cv" (the link's own check valve) /
+            # "tank" (a tank at one of its ends, judged at a level limit by the driver)
+            wr = getattr(self, "writers", None) or [("_get_all_tank_controls", k, "tank") for k in ("pipe", "pump", "valve")] + [("_get_cv_controls", "pipe", "cv"), ("_get_pump_controls", "pump", "always")]
+            own = any(k == tr.kinds[i] and (g == "always" or (g == "cv" and getattr(l, "check_valve", False))) for _, k, g in wr)
+            cvpump.append(1 if own and tr.kinds[i] != "valve" else 0)
+            by_tank = any(k == tr.kinds[i] and g == "tank" for _, k, g in wr)
+            adj.append([tids[n] for n in (l.start_node_name, l.end_node_name) if n in tankset] if by_tank else [])
         band = tr.htol + 1e-9
         # the statement speaks about the REPORTED state: conditions and link states are read off the result tables
         # (results.node['pressure'|'head'], results.link['status'|'setting']; tank level = reported pressure)
